@@ -298,6 +298,7 @@ FIXED = [
     ("nested-fragment-conflict", "{ ...Fa } fragment Fa on Query { ...Fbb a } fragment Fbb on Query { ...Fccc } fragment Fccc on Query { a: s }", {}),
     ("abstract-spreads", "{ n { id ... on Ob { a b { id } } ... on Other { c } ...NF } u { __typename ... on Node { id } } } fragment NF on Node { id ... on Ob { a } }", {}),
     ("typename-only", "{ __typename }", {}),
+    ("seen-fragments-quirk", "{ ... on Query { ...F } ...F n { ... { ...G } ...G } } fragment F on Query { s a } fragment G on Node { id }", {}),
     ("meta-on-non-root", "{ b { __schema { types { name } } } }", {}),
     ("same-key-object-then-abstract", "{ n { ... on Ob { k: a } ... on Node { k: id } } }", {}),
     ("same-key-abstract-then-object", "{ n { ... on Node { k: id } ... on Ob { k: a } } }", {}),
